@@ -8,6 +8,8 @@ and multi-period stream for 5xx, and reads every uploaded+indexed file back byte
 """
 from __future__ import annotations
 
+import os
+
 import datetime
 import json
 
@@ -72,14 +74,20 @@ class Integrity:
             # blob files on disk
             disk = self.obs.blobs()
             expected = {}
+            sha1s = {}
+            hashes = {r[0]: r[1] for r in q(con, 'select pk, sha1_hash from Blob')}
             for pk, name, spk, bpk in files:
                 if spk in streams and bpk in blobs:
                     expected[f'{streams[spk][1]}/{blobs[bpk][1]}'] = blobs[bpk][2]
+                    sha1s[f'{streams[spk][1]}/{blobs[bpk][1]}'] = hashes.get(bpk)
             for rel, size in expected.items():
                 if rel not in disk:
                     out.append(('media-file-without-blob-file', f'{rel} is missing from the blob store'))
                 elif disk[rel][0] >= 0 and disk[rel][0] != size:
                     out.append(('blob-size-differs-from-file', f'{rel}: row says {size}, file has {disk[rel][0]}'))
+                elif disk[rel][0] >= 0 and sha1s.get(rel) and sha1s[rel] != disk[rel][1]:
+                    # same size, other bytes (e.g. the file of an edited media file overwritten by a refused upload)
+                    out.append(('blob-hash-differs-from-file', f'{rel}: row says sha1 {sha1s[rel]}, file has {disk[rel][1]}'))
             for rel in disk:
                 if rel not in expected:
                     # a leaked file, not a row: outside the property's statement -> diagnostic only
@@ -284,6 +292,28 @@ class History:
                     {'pid': 'p1', 'stream_pk': refs[0]['pk'], 'start': 'PT0S', 'duration': 'PT16S',
                      'tracks': rng.choice([[1], [1, 2], [1, 2, 3], [2]])}])
             out += [set_ref2, retrack, mps_over] if rng.random() < 0.5 else [set_ref2, mps_over, retrack]
+        elif tail < 0.85:
+            # edit an indexed file (its media moves to a blob with the generated name <name>_01.mp4), then upload a file
+            # that carries exactly that name into the same stream (or the other one), then look at the edited file again
+            edited: dict = {}
+
+            def edit_one(w):
+                fs = [f for f in w['files'] if f.get('rep')]
+                if not fs:
+                    return None
+                f = edited['f'] = rng.choice(fs)
+                return G.op_edit_media(f['stream'], f['pk'], rng.choice([2, 3, 7]), 'eng')
+
+            def upload_generated(w):
+                f = edited.get('f')
+                if f is None:
+                    return None
+                spk = f['stream'] if rng.random() < 0.7 or len(w['streams']) < 2 else \
+                    rng.choice([x['pk'] for x in w['streams'] if x['pk'] != f['stream']])
+                src = f['name'] + '.mp4'
+                return G.op_upload(spk, f"{f['name']}_01.mp4", self.media_lib.get(src, self.media_lib['bbb_a1.mp4']))
+            out += [edit_one, upload_generated, index_last]
+            self.res.count('scripted.upload_of_generated_blob_name')
         return out
 
     def gen_op(self, rng, w: dict) -> dict:
@@ -468,6 +498,8 @@ class History:
             steps.append({'op': op['name'], 'method': op['method'], 'url': op['url'],
                           'fields': {k: (v if not isinstance(v, (bytes, list, dict)) else '...') for k, v in op.get('fields', {}).items()},
                           'file': op.get('file', (None,))[0], 'status': status, 'changed': changed})
+            if os.environ.get('DLV_DBG') and (op.get('file', ('',))[0].endswith('_01.mp4') or op['name'] == 'edit-media'):
+                print('DBG', steps[-1], (r.get_data(as_text=True)[:200] if r is not None else None), flush=True)
             res.count('steps')
             res.count('ops.' + op['name'])
             if changed:
